@@ -145,7 +145,10 @@ class Token(str):
         for ws in reversed(self.grammar.whitespace):
             temp = self.replace(ws, " ")
 
-        return all(t.is_comment() for t in temp.split())
+        # A token made only of characters that Python, but not the
+        # grammar, takes for white space (a no-break space) is not WSC.
+        parts = temp.split()
+        return len(parts) > 0 and all(t.is_comment() for t in parts)
 
     def is_comment(self) -> bool:
         """Return true if the Token is a comment according to the
